@@ -44,7 +44,8 @@ def run(tier):
     violations = [{"kind": "broken-proof-obligation", "what": b, "no_failing_input": True, "input": b} for b in po["broken"]]
     c = Counter()
     import docs
-    dl = docrun.synthesized(sd + 71, 4 if tier == "quick" else 16, ncontracts=2, nblocks=5) + docs.analysis_failing()
+    rdoc, redits = docs.reorder_doc()
+    dl = docrun.synthesized(sd + 71, 4 if tier == "quick" else 16, ncontracts=2, nblocks=5) + docs.analysis_failing() + [rdoc]
     samples = []
     for opts in (["-greedy"], ["-greedy", "-storage", "-push0"]) if tier == "quick" else (["-greedy"], ["-greedy", "-storage"], ["-greedy", "-push0"], ["-greedy", "-size", "-partition"]):
         first = docrun.run_docs(dl, opts + ["-log"])
@@ -96,6 +97,14 @@ def run(tier):
                     edits.append(("targeted-" + how, tl))
             for _ in range(4 if tier == "quick" else 12):
                 edits.append(tamper(rng, log, all_ids or ["ADD"]))
+            if name == rdoc[0]:
+                # the same accesses in the opposite order, every operation still applied to its own operands
+                for honest, tampered in redits:
+                    for k in log:
+                        if log[k] == honest:
+                            tl = {a: list(b) for a, b in log.items()}
+                            tl[k] = list(tampered)
+                            edits.append(("accesses-reordered-stack-correct", tl))
             for kind, tl in edits:
                 kinds.append(kind)
                 tasks.append({"kind": "cli", "files": {name: text, logname: json.dumps(tl)}, "args": [name] + opts + ["-optimize-from-log", logname], "timeout": 300})
@@ -119,6 +128,13 @@ def run(tier):
                             violations.append({"kind": "tampered-log-emits-ill-formed-code", "input": name, "options": opts,
                                                "what": "log edit %s on %s accepted, block %s is not well formed: %s" % (kind, name, k, [(i["name"], i.get("value")) for i in out.get(k, [])])})
                 pairs = [{"in_tokens": q.split("\t")[1], "out_tokens": q.split("\t")[2], "need": 0} for q in reqs]
+                # states must be deep enough for both blocks to run (otherwise both fail and look alike)
+                # (just deep enough for the input block: the replayed one may not need a deeper stack)
+                nds = drv.batch(["NEED\t%s" % p["in_tokens"] for p in pairs]) if pairs else []
+                for i, p in enumerate(pairs):
+                    w = nds[i].split()
+                    if w and w[0].isdigit():
+                        p["need"] = int(w[0])
                 if pairs:
                     e2e.judge_pairs(pairs, 24, rng, check_proved=0)
                 for k, p in zip(keys, pairs):
